@@ -1,5 +1,5 @@
 SPECIFICATION GenSpec
-CONSTANTS NH = 2 Gran = 4 Hdr = 64 PChunk = 64 MaxLen = 2 MaxArg = 2 Prune = TRUE MaxDepth = 6
+CONSTANTS NH = 2 Gran = 4 Hdr = 64 PChunk = 64 MaxLen = 2 MaxArg = 2 Prune = TRUE MaxDepth = 7
 CONSTRAINT Bound
 VIEW Skel
 ACTION_CONSTRAINT Emit
